@@ -31,7 +31,7 @@ def main():
         print("MC_BigNat:", vlib.parse_tlc_stats(r.stdout))
     # Layer-2 models, small instances (design-level; DESIGN.md 8)
     algo = os.path.join(vlib.VERIF, "algo")
-    for mod, cfg in (("Knuth", "Knuth_small"), ("Redc", "Redc_small"), ("LimbShift", "LimbShift_small"), ("AddMul", "AddMul_small"),
+    for mod, cfg in (("Knuth", "Knuth_small"), ("Redc", "Redc_small"), ("Redc", "Redc_square_small"), ("Redc", "Redc_square_3limb"), ("LimbShift", "LimbShift_small"), ("AddMul", "AddMul_small"),
                      ("MG10", "MG10_2x1_small"), ("MG10", "MG10_3x2_small"), ("MG10", "MG10_recip2_small"),
                      ("Lehmer", "Lehmer_prefix_small"), ("Lehmer", "Lehmer_full_small"), ("Lehmer", "Lehmer_ext_small"),
                      ("Lehmer", "Lehmer_ext_narrow"), ("Lehmer", "Lehmer_inv_small"), ("Root", "Root_small"),
